@@ -285,7 +285,40 @@ impl C02 {
                 return Verdict::Pass;
             }
         };
-        let full = format!("<?xml version=\"1.0\" encoding=\"windows-1252\"?>{}", case.rendered.text);
+        // the declaration in one of its legal spellings: either quote, white space around the equals
+        // signs and before "?>", the label in any case (XML 1.0 productions [23]-[25], [80]-[81])
+        let q = if src.bool() { '"' } else { '\'' };
+        let eq = ["=", " = ", "= ", " =", "\t=\n"][src.weighted(&[4, 2, 1, 1, 1])];
+        // (a text that needs the bytes 0x80..0x9F is windows-1252 only: in ISO-8859-1 proper those are C1 controls)
+        let needs_cp1252 = case.rendered.text.chars().any(|c| matches!(cp1252_byte(c), Some(b) if (0x80..0xa0).contains(&b)));
+        let label = ["windows-1252", "Windows-1252", "WINDOWS-1252", "ISO-8859-1", "iso-8859-1"][src.choice(if needs_cp1252 { 3 } else { 5 })];
+        // known finding xmlDeclLineBreakAfterXmlKeyword: the tokenizer xot uses (crate xmlparser) wants a
+        // space directly after "<?xml"; a line break or TAB there (S in production [24]) is rejected
+        let mut after_keyword = [" ", "  ", "\n", "\t", " \n"][src.choice(5)];
+        if !after_keyword.starts_with(' ') {
+            if ctx.exclude("xmlDeclLineBreakAfterXmlKeyword") {
+                after_keyword = " ";
+            } else {
+                ctx.label("declaration_with_line_break_or_tab_after_xml_keyword");
+            }
+        }
+        let full = format!(
+            "<?xml{}version{}{}1.0{}{}encoding{}{}{}{}{}?>{}",
+            after_keyword,
+            eq,
+            q,
+            q,
+            [" ", "\n", " \t"][src.choice(3)],
+            eq,
+            q,
+            label,
+            q,
+            ["", " ", "\n"][src.choice(3)],
+            case.rendered.text
+        );
+        if eq != "=" {
+            ctx.label("declaration_with_white_space_around_equals");
+        }
         let mut bytes = vec![];
         let mut hi = 0usize;
         for c in full.chars() {
